@@ -139,6 +139,9 @@ type Engine struct {
 	quantVars map[types.Object]bool
 	strLens map[string]int64
 	frame *frame
+	alloc0 T
+	permDecl int
+	visStack []T
 	gfacts []Fact
 	clauseMemo map[string]Value
 	entryState *State
@@ -168,7 +171,11 @@ func newEngine0(p *Program) *Engine {
 func (e *Engine) fresh(prefix string, sort Sort) T {
 	e.nsym++
 	name := fmt.Sprintf("%s!%d", sanitize(prefix), e.nsym)
-	e.defs = append(e.defs, Def{name: name, sort: sort})
+	if e.permDecl > 0 {
+		e.heapDecls = append(e.heapDecls, Def{name: name, sort: sort})
+	} else {
+		e.defs = append(e.defs, Def{name: name, sort: sort})
+	}
 	return T{name, sort}
 }
 
@@ -491,7 +498,7 @@ func (e *Engine) symbolic(st *State, prefix string, t types.Type) Value {
 			return BoolV{e.fresh(prefix, SBool)}
 		case u.Info()&types.IsString != 0:
 			s := e.fresh(prefix, SInt)
-			e.assume(st, Ge(e.slen(s), I(0)), "string length")
+			e.assume(st, And(Ge(e.slen(s), I(0)), Le(e.slen(s), I(1<<40))), "string length")
 			e.strIDs = append(e.strIDs, s)
 			return StrV{s}
 		default:
@@ -506,6 +513,9 @@ func (e *Engine) symbolic(st *State, prefix string, t types.Type) Value {
 			sz = e.cells(p.Elem())
 		}
 		e.assume(st, And(Ge(r, I(0)), Le(Add(r, I(int64(sz))), st.alloc)), "allocated reference")
+		if _, isMap := u.(*types.Map); isMap {
+			e.mapTyped(st, r, t)
+		}
 		return RefV{r}
 	case *types.Slice:
 		blk := e.fresh(prefix+"_blk", SInt)
@@ -535,6 +545,17 @@ func (e *Engine) symbolic(st *State, prefix string, t types.Type) Value {
 		return sv
 	}
 	return IntV{e.fresh(prefix, SInt)}
+}
+
+// mapTyped: a non-nil map reference of static type t is a map of that type (maps of different types never alias).
+func (e *Engine) mapTyped(st *State, ref T, t types.Type) {
+	e.declareUF("maptype", "(declare-fun maptype (Int) Int)")
+	id, ok := e.typeIDs["map:"+types.TypeString(under(t), nil)]
+	if !ok {
+		id = len(e.typeIDs) + 1
+		e.typeIDs["map:"+types.TypeString(under(t), nil)] = id
+	}
+	e.assume(st, Implies(Ne(ref, I(0)), Eq(app(SInt, "maptype", ref), I(int64(id)))), "typed memory: map reference has its static map type")
 }
 
 // bytesAreBytes: every cell of a block viewed as []byte / [n]byte holds a byte (typed memory).
@@ -832,7 +853,7 @@ func (e *Engine) loadAtK(st *State, addr T, t types.Type, key string) Value {
 			return BoolV{I2B(c)}
 		case u.Info()&types.IsString != 0:
 			c = e.nameQ("ld", c)
-			e.assumeQ(st, Ge(e.slen(c), I(0)), "string length")
+			e.assumeQ(st, And(Ge(e.slen(c), I(0)), Le(e.slen(c), I(1<<40))), "string length")
 			if e.quant == 0 {
 				e.strIDs = append(e.strIDs, c)
 			}
@@ -850,6 +871,9 @@ func (e *Engine) loadAtK(st *State, addr T, t types.Type, key string) Value {
 		}
 		e.assumeQ(st, And(Ge(c, I(0)), Le(Add(c, I(int64(sz))), st.alloc)), "typed memory: reference is allocated")
 		e.oldStaysOld(st, addr, false, c)
+		if _, isMap := u.(*types.Map); isMap && e.quant == 0 {
+			e.mapTyped(st, c, t)
+		}
 		return RefV{c}
 	case *types.Slice:
 		h := e.heapGet(st, key)
